@@ -35,7 +35,15 @@ type Sched struct {
 	change  map[int]bool // steps at which the running worker's priority drops
 	Trace   []uint16     // worker<<8 | point
 	active  bool
-	stuck   chan struct{}
+	running int // workers that hold the token: 1, or more after a blocked worker was bypassed
+	// Blocked counts the times the running worker was found blocked on something only another
+	// worker can release (the process was idle while workers were parked) and another parked
+	// worker was let run: legitimate waiting, not a violation. From then on the trial is no longer
+	// strictly serialised.
+	Blocked int
+	// Why says how Run ended when it returns false: "deadlock" (every unfinished worker blocked,
+	// process idle for 3 s) or "watchdog" (wall-clock limit: inconclusive)
+	Why string
 }
 
 type worker struct {
@@ -101,7 +109,11 @@ func (s *Sched) Run(fns []func()) bool {
 			s.mu.Lock()
 			w.done = true
 			w.parked = false
-			next := s.pick()
+			s.running--
+			var next *worker
+			if s.running == 0 {
+				next = s.pick()
+			}
 			s.mu.Unlock()
 			if next != nil {
 				next.resume <- struct{}{}
@@ -120,13 +132,48 @@ func (s *Sched) Run(fns []func()) bool {
 	}
 	fin := make(chan struct{})
 	go func() { wg.Wait(); close(fin) }()
-	select {
-	case <-fin:
-		s.active = false
-		return true
-	case <-time.After(60 * time.Second):
-		// generous wall-clock watchdog: its firing is reported as inconclusive by the caller
-		return false
+	// The monitor: a worker that blocks on something another worker holds (a lock, a wait for a
+	// build in flight) cannot yield, and the worker that could release it is parked. The sign is a
+	// process that burns no CPU while workers are parked; then the best parked worker is let run as
+	// well. If nobody is parked either, every unfinished worker is blocked: a deadlock.
+	tick := time.NewTicker(4 * time.Millisecond)
+	defer tick.Stop()
+	deadline := time.After(60 * time.Second)
+	lastCPU, idle := ProcessCPU(), 0
+	for {
+		select {
+		case <-fin:
+			s.active = false
+			return true
+		case <-deadline:
+			// generous wall-clock watchdog: its firing is inconclusive, not a violation
+			s.Why = "watchdog"
+			return false
+		case <-tick.C:
+			cpu := ProcessCPU()
+			if cpu-lastCPU > 300*time.Microsecond {
+				idle = 0
+			} else {
+				idle++
+			}
+			lastCPU = cpu
+			if idle < 5 {
+				continue
+			}
+			s.mu.Lock()
+			next := s.pick()
+			if next != nil {
+				s.Blocked++
+				idle = 0
+			}
+			s.mu.Unlock()
+			if next != nil {
+				next.resume <- struct{}{}
+			} else if idle > 750 {
+				s.Why = "deadlock"
+				return false
+			}
+		}
 	}
 }
 
@@ -143,6 +190,7 @@ func (s *Sched) pick() *worker {
 	}
 	if best != nil {
 		best.parked = false
+		s.running++
 	}
 	return best
 }
@@ -171,7 +219,12 @@ func (s *Sched) Yield(point int) {
 		}
 	}
 	w.parked = true
-	next := s.pick()
+	s.running--
+	var next *worker
+	if s.running == 0 {
+		// (otherwise a worker that was taken for blocked is running as well: just park)
+		next = s.pick()
+	}
 	if next == w {
 		s.mu.Unlock()
 		return
